@@ -424,18 +424,29 @@ func child(path string) {
 	json.NewEncoder(os.Stdout).Encode(out)
 }
 
-func runCorpus(rep *vh.Report) {
+type corpusRes struct {
+	it   corpusItem
+	out  childOut
+	err  error
+	hang bool
+	bad  bool
+}
+
+type corpusRun struct {
+	files   []string
+	results []corpusRes
+	done    chan int
+}
+
+const childTimeout = 300 * time.Second // a real hang never ends; the margin is for heavily loaded machines
+
+// startCorpus launches every corpus item in its own child process (an item may hang); they run while the main
+// generator works
+func startCorpus() *corpusRun {
 	dir := filepath.Join(os.Getenv("VERIF_DIR"), "corpus", "C19")
 	files, _ := filepath.Glob(filepath.Join(dir, "*.json"))
 	sort.Strings(files)
-	type res struct {
-		it   corpusItem
-		out  childOut
-		err  error
-		hang bool
-		bad  bool
-	}
-	results := make([]res, len(files))
+	results := make([]corpusRes, len(files))
 	done := make(chan int, len(files))
 	for i, f := range files {
 		b, _ := os.ReadFile(f)
@@ -454,7 +465,7 @@ func runCorpus(rep *vh.Report) {
 			go func() { outb, results[i].err = cmd.Output(); close(fin) }()
 			select {
 			case <-fin:
-			case <-time.After(45 * time.Second):
+			case <-time.After(childTimeout):
 				if cmd.Process != nil {
 					cmd.Process.Kill()
 				}
@@ -467,8 +478,21 @@ func runCorpus(rep *vh.Report) {
 			}
 		}(i, f)
 	}
+	return &corpusRun{files, results, done}
+}
+
+func (cr *corpusRun) finish(rep *vh.Report, wd *vh.Watchdog) {
+	files, results := cr.files, cr.results
 	for range files {
-		<-done
+		waiting := true
+		for waiting {
+			select {
+			case <-cr.done:
+				waiting = false
+			case <-time.After(20 * time.Second):
+				wd.Beat("waiting for the corpus child processes")
+			}
+		}
 	}
 	for i, r := range results {
 		it, out := r.it, r.out
@@ -477,7 +501,7 @@ func runCorpus(rep *vh.Report) {
 		case r.bad:
 			rep.Fail(vh.Failure{Key: "corpus:" + files[i], What: "unreadable corpus file"})
 		case r.hang:
-			rep.Fail(vh.Failure{Key: it.Key, What: "corpus " + it.Name + ": the run under the debugger does not terminate (45 s); " + it.What, Input: it})
+			rep.Fail(vh.Failure{Key: it.Key, What: "corpus " + it.Name + ": the run under the debugger does not terminate (300 s); " + it.What, Input: it})
 		case r.err != nil:
 			rep.Fail(vh.Failure{Key: it.Key, What: "corpus " + it.Name + ": child failed: " + fmt.Sprint(r.err), Input: it})
 		case out.Dbg.Result != out.Plain.Result || fmt.Sprint(out.Dbg.Emits) != fmt.Sprint(out.Plain.Emits) || out.Dbg.Panic != out.Plain.Panic:
@@ -512,7 +536,7 @@ func main() {
 	if a.N > 0 {
 		nProg = a.N
 	}
-	runCorpus(rep)
+	corpus := startCorpus()
 
 	wp, wd := newWorld(false), newWorld(true)
 	cw := vh.NewCases(a, "From Coq Require Import List ZArith Bool.\nFrom Verif Require Import C19.Model.\nImport ListNotations.\nOpen Scope Z_scope.", "case", "mismatches", 40)
@@ -667,6 +691,7 @@ func main() {
 		idx++
 	}
 	cw.Close()
+	corpus.finish(rep, wdg)
 	rep.Extra["programs"] = idx
 	rep.Extra["discarded_programs"] = discarded
 	rep.Write()
